@@ -64,7 +64,7 @@ fn rx_step(ignore_mac: bool, shape: Option<(usize, u8)>) {
     model::reset(probe);
     // functional consistency of the block cipher model is not needed here (every keystream block
     // has a distinct input) and its Ackermann loop is unrolled once per keystream iteration
-    unsafe { model::CONSISTENT = false; }
+    unsafe { model::CONSISTENT.v = false; }
     let mut region = region::Configuration::new(mc::rt::region_ut(0));
     let mut cfg = mc::any_configuration();
     kani::assume(mc::cfg_inv(&cfg, &region));
@@ -102,8 +102,8 @@ fn rx_step(ignore_mac: bool, shape: Option<(usize, u8)>) {
     if parses && !oversize {
         if let Some(n) = n {
             unsafe {
-                crate::vcheck!(model::MIC_N == 1, "C05: exactly one MIC computation for a parseable, fresh frame");
-                let m = &model::MICS[0];
+                crate::vcheck!(model::MIC_N.v == 1, "C05: exactly one MIC computation for a parseable, fresh frame");
+                let m = &model::MICS.v[0];
                 crate::vcheck!(m.key == model::pack(pre.nwkskey.as_ref()), "C05: MIC must be verified under the NwkSKey");
                 let dir = (frame[0] >> 5) & 1;
                 crate::vcheck!(m.b0 == mc_b0(dir, [frame[1], frame[2], frame[3], frame[4]], n, len - 4),
@@ -116,7 +116,7 @@ fn rx_step(ignore_mac: bool, shape: Option<(usize, u8)>) {
                     && m.out[2] == frame[len - 2] && m.out[3] == frame[len - 1];
             }
         } else {
-            unsafe { crate::vcheck!(model::MIC_N == 0, "C05: stale/too-far counters are dropped before any MIC work"); }
+            unsafe { crate::vcheck!(model::MIC_N.v == 0, "C05: stale/too-far counters are dropped before any MIC work"); }
         }
     }
     let accept = parses && !oversize && n.is_some() && authentic;
@@ -163,7 +163,7 @@ fn rx_step(ignore_mac: bool, shape: Option<(usize, u8)>) {
         let plen = if has_port { len - 4 - (8 + foptslen) - 1 } else { 0 };
         let nblocks = (plen + 15) / 16;
         unsafe {
-            crate::vcheck!(model::ENC_N == nblocks, "C05: one keystream block per 16 payload bytes");
+            crate::vcheck!(model::ENC_N.v == nblocks, "C05: one keystream block per 16 payload bytes");
             if plen > 0 {
                 let port = frame[8 + foptslen];
                 let key = if port == 0 { model::pack(pre.nwkskey.as_ref()) } else { model::pack(pre.appskey.as_ref()) };
@@ -171,7 +171,7 @@ fn rx_step(ignore_mac: bool, shape: Option<(usize, u8)>) {
                 let addr = [frame[1], frame[2], frame[3], frame[4]];
                 let j: usize = kani::any();
                 kani::assume(j < nblocks);
-                let e = model::ENC[j];
+                let e = model::ENC.v[j];
                 crate::vcheck!(e.key == key, "C05: payload key is selected by FPort (0: NwkSKey, else AppSKey)");
                 crate::vcheck!(e.input == mc_a(dir, addr, n, (j + 1) as u8), "C05: payload must be decrypted with the same counter N (block A_i)");
                 if port != 0 && pre.fcnt_up != u32::MAX {
